@@ -7,6 +7,10 @@
 
 package sorter
 
+// apis/extension is loaded from source so that the C13 specifications expanded here (kubeQoS names kubectl's
+// qos.GetPodQOS) resolve their imports.
+//@ uses apis/extension
+
 //@ spec func sgn(a int, b int) int = a == b ? 0 : (a > b ? 1 : -1)
 
 //@ func cmpBool [C18]
